@@ -14,7 +14,7 @@ import (
 func (P *Prog) keyBuilders(g *ssa.Global) map[*ssa.Function]bool {
 	direct := map[*ssa.Function]bool{}
 	for _, fn := range P.RepoFns {
-		Instrs(fn, func(in ssa.Instruction) {
+		InstrsRaw(fn, func(in ssa.Instruction) {
 			for _, op := range in.Operands(nil) {
 				if *op == ssa.Value(g) {
 					direct[fn] = true
@@ -68,7 +68,7 @@ func (P *Prog) storeWrites() []storeWrite {
 	var out []storeWrite
 	for _, fn := range P.RepoFns {
 		fn := fn
-		Instrs(fn, func(in ssa.Instruction) {
+		InstrsRaw(fn, func(in ssa.Instruction) {
 			ci, ok := in.(ssa.CallInstruction)
 			if !ok {
 				return
@@ -168,7 +168,7 @@ func checkFieldWriters(r *Run, rule, pkg, typ, field string, allowed []string) {
 	found := map[string]ssa.Instruction{}
 	for _, fn := range P.RepoFns {
 		fn := fn
-		Instrs(fn, func(in ssa.Instruction) {
+		InstrsRaw(fn, func(in ssa.Instruction) {
 			st, ok := in.(*ssa.Store)
 			if !ok {
 				return
